@@ -5,7 +5,8 @@ import json
 from props.common import col, lit
 
 WORDS = ['alpha', 'beta', 'Gamma', 'delta', 'x', '', ' pad ', 'a b', 'ERROR', 'warn', 'é', '10', 'true', 'null', "O'Brien", 'say "hi"', 'back\\slash']
-NUMSTR = ['5', '-5', '1e3', '1,000', '-1,000', '3.25', ' 42 ', '$7', '0x10', '1e400', '007', '+8', '.5', '5.', 'nan', 'inf', '12abc', '']
+NUMSTR = ['5', '-5', '1e3', '1,000', '-1,000', '3.25', ' 42 ', '$7', '0x10', '1e400', '007', '+8', '.5', '5.', 'nan', 'inf', '12abc', '',
+          '0x0', '0', '0000', '0x', '0x0x1f', '0X1F', 'ff', '-0x1', '-ff', '7fffffffffffffff', '8000000000000000', ' 0x7b ', '+a', '0x0040', 'x1', '00x1', '-8000000000000000', 'DeadBeef']
 KEYS = ['a', 'b', 'c']
 EDGE_INTS = [0, 1, -1, 2, 7, 10, 100, -100, 2**31, -2**31, 2**53, 2**53 + 1, -2**53 - 1, 2**63 - 1, -2**63, 123456789012]
 EDGE_FLOATS = [0.5, -0.5, 1.5, 2.25, 1e-3, 1e300, -1e300, 1e-300, 0.1, 0.2, 3.0000000000000004, 2.5, 3.5, -2.5, 9.007199254740993e15,
@@ -158,6 +159,8 @@ def num_expr(rng, depth, cols=None):
         return ('ar', rng.choice(['add', 'sub', 'mul', 'div']), num_expr(rng, depth - 1, cols), num_expr(rng, depth - 1, cols))
     if r < 0.8:
         return ('call', rng.choice(F1_NUM), [num_expr(rng, depth - 1, cols)])
+    if r < 0.83 and cols is None:
+        return ('call', 'parseHex', [col_ref(rng, ['t', 't', 's', 'a'])])
     if r < 0.9:
         return ('if', bool_expr(rng, depth - 1, cols), num_expr(rng, depth - 1, cols), num_expr(rng, depth - 1, cols))
     return ('call', 'length', [col_ref(rng, ['s', 'arr', 'obj', 'k', 'a'])])
@@ -186,9 +189,11 @@ def bool_expr(rng, depth, cols=None):
 def str_expr(rng, depth, cols=None):
     r = rng.random()
     if depth <= 0 or r < 0.4:
+        if cols is None and rng.random() < 0.12:
+            return col_ref(rng, ['obj', 'arr'])        # the text of a container: {:?} notation, members in key order
         return col_ref(rng, ['s', 'k', 't']) if rng.random() < 0.7 else lit(rng.choice(WORDS))
     if r < 0.6:
-        return ('call', 'concat', [any_expr(rng, depth - 1, ['s', 'k', 'a', 'id', 'flag', 'nope']) for _ in range(rng.randint(0, 3))])
+        return ('call', 'concat', [any_expr(rng, depth - 1, ['s', 'k', 'a', 'id', 'flag', 'nope', 'obj', 'arr']) for _ in range(rng.randint(0, 3))])
     if r < 0.8:
         args = [str_expr(rng, depth - 1, cols), lit(rng.choice([0, 1, 2, 5]))]
         if rng.random() < 0.6:
